@@ -541,9 +541,33 @@ def gen_unknown(rng, known_numbers, n=None):
         elif wt == 2:
             payload = bytes(rng.getrandbits(8) for _ in range(rng.choice([0, 1, 3, 10])))
             out += enc_varint(len(payload)) + payload
-        else:  # a group holding one varint field
-            out += enc_varint((1 << 3) | 0) + enc_varint(rng.getrandbits(10)) + enc_varint((num << 3) | 4)
+        else:
+            out += _gen_group_body(rng, 0) + enc_varint((num << 3) | 4)
     return bytes(out)
+
+
+def _gen_group_body(rng, depth):
+    """contents of a (proto2) group, without its start / end tags: usually one varint field; sometimes fields of the other
+    wire types and groups nested inside the group, up to three deep (seeded change C10-5: a group skipper that loses the
+    start tag of a NESTED group from the raw bytes)"""
+    body = bytearray(enc_varint((1 << 3) | 0) + enc_varint(rng.getrandbits(10)))
+    if rng.random() < 0.5:
+        for _ in range(rng.randint(1, 3)):
+            inner = rng.choice([2, 7, 40, 5000])
+            wt = rng.choice([0, 1, 2, 5, 3, 3]) if depth < 3 else rng.choice([0, 1, 2, 5])
+            body += enc_varint((inner << 3) | wt)
+            if wt == 0:
+                body += enc_varint(rng.getrandbits(rng.choice([3, 20, 64])))
+            elif wt == 1:
+                body += bytes(rng.getrandbits(8) for _ in range(8))
+            elif wt == 5:
+                body += bytes(rng.getrandbits(8) for _ in range(4))
+            elif wt == 2:
+                payload = bytes(rng.getrandbits(8) for _ in range(rng.choice([0, 1, 5])))
+                body += enc_varint(len(payload)) + payload
+            else:
+                body += _gen_group_body(rng, depth + 1) + enc_varint((inner << 3) | 4)
+    return bytes(body)
 
 
 # --------------------------------------------------------------------------------------
